@@ -97,9 +97,32 @@ class FunctionInfo:
         return "abstractmethod" in self.decorators
 
     @property
+    def analysis_node(self) -> ast.FunctionDef:
+        """The function's AST with single-use private helpers inlined (see sa/inline.py); used for CFG construction."""
+        cached = self.__dict__.get("_anode")
+        if cached is None:
+            prog = getattr(self.module, "program", None)
+            node, inl = self.node, []
+            if prog is not None and self.cls is not None:
+                from .inline import inlined_function
+
+                try:
+                    node, inl = inlined_function(prog, self)
+                except RecursionError:  # pragma: no cover
+                    node, inl = self.node, []
+            cached = (node, inl)
+            self.__dict__["_anode"] = cached
+        return cached[0]
+
+    @property
+    def inlined_helpers(self) -> list[str]:
+        self.analysis_node
+        return self.__dict__["_anode"][1]
+
+    @property
     def body(self) -> list[ast.stmt]:
-        """Body without the docstring."""
-        b = self.node.body
+        """Body without the docstring (helpers inlined)."""
+        b = self.analysis_node.body
         if b and isinstance(b[0], ast.Expr) and isinstance(b[0].value, ast.Constant) and isinstance(b[0].value.value, str):
             return b[1:]
         return b
@@ -249,6 +272,7 @@ class Program:
                 raise AnalysisError(f"{rel} does not parse: {ex}") from None
             modname = self.package if n == "__init__.py" else f"{self.package}.{n[:-3]}"
             mod = ModuleInfo(modname, rel, src, tree, hashlib.sha256(src.encode()).hexdigest())
+            mod.program = self  # type: ignore[attr-defined]
             self.modules[modname] = mod
             self._index_module(mod)
 
